@@ -102,3 +102,26 @@ PROPS['C08'] = dict(
     assumptions=['key-switching code is in the core objects shared by all back-ends', 'rounding ties (a exactly half-way between two multiples of 2^(32-t*basebit)) may go either way'],
     jobs=_c08,
 )
+
+# ------------------------------------------------------------------------------------------------ C19
+PROPS['C19'] = dict(
+    level='exploration',
+    rule='cases = lambda in [-5,300] + {INT32_MIN, INT32_MAX}, each in a forked child, per library variant; oracle: SIGABRT outside [1,128]; documented 80-bit set '
+         'for 1..80 and documented 128-bit set (README table) for 81..128 field by field; derived fields recomputed; structural constraints; formula noise <= bound and >= 12 sigma margin. every case is non-trivial',
+    bounds={'quick': 'all 308 lambda x 5 back-ends (optim) + debug', 'thorough': 'all 308 lambda x 5 back-ends x {optim, debug}'},
+    assumptions=['documented values are those of README.md (128-bit: n=630, 2^-15, N=1024, 2^-25) and of the 2016 historic set for 80-bit', 'noise formulas: average-case CGGI (Bg^2/12 digits), bounds 0.0037/0.0047 from the property text'],
+    min_outcomes=3,
+    jobs=lambda tier, seed: sum([J('c19.cpp', 'optim', be, n=2) for be in BE], []) + (sum([J('c19.cpp', 'debug', be, n=2) for be in BE], []) if tier == 'thorough' else J('c19.cpp', 'debug', n=2)),
+)
+
+# ------------------------------------------------------------------------------------------------ C20
+PROPS['C20'] = dict(
+    level='exploration',
+    rule='cases = (API function) x 10 libraries [defined-with-C-linkage must agree], (header, language) compiled alone, (structure|field) sizeof/offsetof C vs C++, '
+         '(language, build, back-end) behavioural dump, spqlios assembly offsets. The API, the header closure and the structure list are computed from the working tree at check time. '
+         'non-trivial = API function defined somewhere, every header/field/dump case',
+    bounds={'quick': 'complete: 5 back-ends x {optim, debug}, every header of the include closure of tfhe.h, every public structure and field', 'thorough': 'same (the space is small and fully enumerated)'},
+    assumptions=['public API = functions declared EXPORT in the include closure of tfhe.h', 'functions declared but defined in no variant are consistent (reported as information)'],
+    min_outcomes=3,
+    jobs=lambda tier, seed: [dict(harness='c20.py', variant='optim', backend='all', needs_variants=['debug'])],
+)
